@@ -129,6 +129,8 @@ def fill_proof_cov(rep, gate, trusted):
     rep.cov["trusted_base"] = trusted
     rep.cov["theorems"] = gate["theorems"]
     rep.cov["axioms_reported"] = gate["axioms"]
+    if "coqchk" in gate:
+        rep.cov["coqchk"] = gate["coqchk"]
 
 
 TRUSTED_COMMON = [
@@ -1480,4 +1482,5 @@ def main(argv):
     if prop not in CHECKS:
         print("no check for %s" % prop)
         return 2
+    os.environ["VERIF_TIER_EFFECTIVE"] = tier
     return CHECKS[prop](tier, env_seed())
